@@ -12,16 +12,26 @@ package pool
 // (declared in /verif/specs/ext/std.spec so that every check sees them)
 
 //@ func GetBuf(size int) (b Buffer)
-//@   trusted
+//@   props C20 C01
 //@   requires [C01:nonneg] 0 <= size
+//@   ghost gB []byte = nil
+//@   ghost nGet int = 0
+//@   oncall Get: nGet = nGet + 1
+//@   aftercall Get: gB = ret0
 //@   modifies nothing
+//@   callsite Get: [C20:asks-the-pool-for-the-requested-size] arg0 == size
+//@   ensures [C20:hands-out-exactly-what-the-pool-gave] nGet == 1 && b == gB
 //@   ensures len(b) == size && cap(b) >= size && fresh(b) && rootObj(b)
 //@   ensures attr(pooled, b)
 
 //@ func ReleaseBuf(b Buffer)
-//@   trusted
+//@   props C20 C01
 //@   requires [C01,C20:nonnil] b != nil
+//@   ghost nRel int = 0
+//@   oncall Release: nRel = nRel + 1
 //@   modifies nothing
+//@   callsite Release: [C20:gives-back-the-callers-buffer] arg0 == b
+//@   ensures [C20:given-back-once] nRel == 1
 //@   ensures attr(released, b)
 
 //@ func CopyBuf(b []byte) (bb Buffer)
@@ -30,15 +40,25 @@ package pool
 //@   ensures len(bb) == len(b) && fresh(bb) && bytesEq(bb, 0, b, 0, len(b))
 
 // pooled bufio readers (server connection loops)
+// pooled bufio readers: what the pool holds are readers (its New makes them, Release puts nothing else back); a
+// reader is pointed at the caller's source when it is handed out and detached from it before it goes back
 //@ func NewBR1K(r io.Reader) (br *bufio.Reader)
-//@   trusted
+//@   props C20 C13
+//@   assumecall Get: typeIs(ret0, *bufio.Reader) && ptrOf(ret0, bufio.Reader) != nil
+//@   ghost gX any = nil
+//@   aftercall Get: gX = ret0
 //@   modifies nothing
-//@   ensures br != nil
+//@   callsite Reset: [C13,C20:reads-from-the-callers-source-only] arg0 == ptrOf(gX, bufio.Reader) && arg1 == r
+//@   ensures br != nil && br == ptrOf(gX, bufio.Reader)
 //@ func ReleaseBR1K(br *bufio.Reader)
-//@   trusted
+//@   props C20
+//@   requires br != nil
+//@   ghost nReset int = 0
+//@   oncall Reset: nReset = nReset + 1
 //@   modifies nothing
+//@   callsite Reset: [C20:detached-from-its-source-and-emptied] arg0 == br && arg1 == nil
+//@   callsite Put: [C20:the-emptied-reader-goes-back] nReset == 1 && typeIs(arg1, *bufio.Reader) && ptrOf(arg1, bufio.Reader) == br
 
-// Go runs fn on a pooled goroutine (gopool): for the caller it is a "go fn()"
 //@ func Go(fn func())
 //@   trusted
 //@   spawns fn
@@ -46,9 +66,17 @@ package pool
 
 // pooled bytes.Buffers (DoH request bodies)
 //@ func (p *BytesBufPool) Get() (b *bytes.Buffer)
-//@   trusted
+//@   props C20
+//@   requires p != nil
+//@   assumecall Get: typeIs(ret0, *bytes.Buffer) && ptrOf(ret0, bytes.Buffer) != nil
 //@   modifies nothing
 //@   ensures b != nil
+// a buffer goes back empty: the next user starts from nothing, never from the previous request's bytes
 //@ func (p *BytesBufPool) Release(b *bytes.Buffer)
-//@   trusted
+//@   props C20
+//@   requires p != nil && b != nil
+//@   ghost nReset int = 0
+//@   oncall Reset: nReset = nReset + 1
 //@   modifies nothing
+//@   callsite Reset: [C20:emptied-before-it-is-pooled] arg0 == b
+//@   callsite Put: [C20:the-emptied-buffer-goes-back] nReset == 1 && typeIs(arg1, *bytes.Buffer) && ptrOf(arg1, bytes.Buffer) == b
